@@ -2,7 +2,7 @@ import Tally.Prelude
 /-!
 # Concurrent model of one registry shard (scope_registry.go), repaired code (D1, D4a, D4b, D4c)
 
-One shard: a map `ident ↦ scope id` protected by an RW lock, scope objects with a `closed` flag and one
+One shard: a map `key ↦ scope id` protected by an RW lock, scope objects with a `closed` flag and one
 counter cell each (counters of one scope do not interact; get-or-create of metrics is C09), any number of
 threads.  A step is one atomic action of one thread; lock-protected regions that contain no schedule
 point are single steps.  The *write* lock is therefore never held across steps; the *read* lock is
@@ -11,7 +11,16 @@ scope), and so is the per-scope metric lock during a visit (`visiting`).
 
 Tokens make "exactly once" literal: every increment creates a fresh token stamped `pre` iff the scope's
 (and the root's) closed flag was still clear when it was recorded.  The property is about `pre` tokens.
-Keys are identities (no sanitizer aliasing here: that is sequential and covered by Model.Scope).
+
+Sanitizer aliasing: keys are natural numbers and the model is parameterised by the sanitizer on keys
+`san : Nat → Nat` (an explicit argument of `step` / `run` / `initRoot`; the theorems assume it idempotent).
+A scope's identity `ScopeS.ident` is the SANITIZED key; `obtain t r` carries the caller's RAW key `r`.
+`Subscope` looks the raw key up under the read lock, and on the write-locked path looks `san r` up, registers a
+new scope under `san r` and adds the alias `r ↦ scope` when `r` is not registered.  The re-acquire path removes
+the closed scope under BOTH keys (`removeWithRLock` twice, each with its own unlock / lock / unlock / relock
+hand-over).  A report pass iterates over ENTRIES (keys), so a scope registered under two keys is visited once
+per key, and each removal removes only the entry of the key being visited, by identity.
+With `san = id` the alias is never added and the second removal finds nothing to remove.
 -/
 namespace Tally.Registry
 
@@ -39,22 +48,25 @@ inductive Pc
   | passUnlocked (visited : List Nat) (k sid : Nat)                -- RUnlock done: about to take the write lock and delete by identity
   | passRelock (visited : List Nat) (k sid : Nat)                  -- write lock released: about to RLock again
   | passClear (visited : List Nat) (k sid : Nat)                   -- holds RLock: about to clear the scope's metrics
-  /- obtain(ident): `registry.Subscope` -/
-  | obtProbe (i : Nat)                                             -- about to RLock and look the key up
-  | obtSwap (i sid : Nat)                                          -- found closed `sid` (holds RLock): about to report it
-  | obtDeliver (i sid : Nat) (pend : List Token)
-  | obtAfter (i sid : Nat)                                         -- holds RLock: about to RUnlock for the removal
-  | obtUnlocked (i sid : Nat)                                      -- about to take the write lock and delete by identity
-  | obtRelock (i sid : Nat)
-  | obtClear (i sid : Nat)                                         -- holds RLock: about to clear
-  | obtRelease (i sid : Nat)                                       -- about to RUnlock
-  | obtWantLock (i : Nat)                                          -- about to take the write lock: re-lookup, create
-  | obtDone (i sid : Nat)                                          -- returned `sid`
+  /- obtain(raw key r): `registry.Subscope` -/
+  | obtProbe (r : Nat)                                             -- about to RLock and look the RAW key up
+  | obtSwap (r sid : Nat)                                          -- found closed `sid` (holds RLock): about to report it
+  | obtDeliver (r sid : Nat) (pend : List Token)
+  | obtAfter (r sid : Nat)                                         -- holds RLock: about to RUnlock for the first removal (raw key)
+  | obtUnlocked (r sid : Nat)                                      -- about to take the write lock and delete `r` if it still points to `sid`
+  | obtRelock (r sid : Nat)                                        -- write lock released: about to RLock again
+  | obtAfter2 (r sid : Nat)                                        -- holds RLock: about to RUnlock for the second removal (sanitized key)
+  | obtUnlocked2 (r sid : Nat)                                     -- about to take the write lock and delete `san r` if it still points to `sid`
+  | obtRelock2 (r sid : Nat)                                       -- write lock released: about to RLock again
+  | obtClear (r sid : Nat)                                         -- holds RLock: about to clear
+  | obtRelease (r sid : Nat)                                       -- about to RUnlock
+  | obtWantLock (r : Nat)                                          -- about to take the write lock: look `san r` up, alias / create
+  | obtDone (r sid : Nat)                                          -- returned `sid`
 deriving Repr, DecidableEq
 
 structure State where
   scopes : List ScopeS                  -- scope id = index
-  reg : List (Nat × Nat)                -- ident ↦ scope id
+  reg : List (Nat × Nat)                -- key ↦ scope id (the sanitized key of a scope, and raw aliases of it)
   readers : List Nat                    -- threads holding the shard's read lock
   pcs : List (Nat × Pc)
   delivered : List Token
@@ -66,9 +78,10 @@ deriving Repr, DecidableEq
 def init : State :=
   { scopes := [], reg := [], readers := [], pcs := [], delivered := [], dropped := [], nextToken := 0, handedOut := [] }
 
-/-- the shard as the harness scenarios start: the root scope (identity 0) registered, as `newScopeRegistry` does -/
-def initRoot : State :=
-  { init with scopes := [{ ident := 0, closed := false, cleared := false, cell := [] }], reg := [(0, 0)] }
+/-- the shard as the harness scenarios start: the root scope (identity `san 0`) registered under its identity, as
+`newScopeRegistry` does -/
+def initRoot (san : Nat → Nat) : State :=
+  { init with scopes := [{ ident := san 0, closed := false, cleared := false, cell := [] }], reg := [(san 0, 0)] }
 
 def pcOf (s : State) (t : Nat) : Pc := (s.pcs.lookup t).getD .idle
 def setPc (s : State) (t : Nat) (p : Pc) : State := { s with pcs := (t, p) :: s.pcs.filter (·.1 != t) }
@@ -81,6 +94,17 @@ def delReader (s : State) (t : Nat) : State := { s with readers := s.readers.fil
 def deleteIfSame (s : State) (k sid : Nat) : State :=
   { s with reg := s.reg.filter fun (k', v) => !(k' == k && v == sid) }
 
+/-- create a fresh scope of identity `i` and register it under `i` -/
+def createScope (s : State) (i : Nat) : State :=
+  { s with scopes := s.scopes ++ [{ ident := i, closed := false, cleared := false, cell := [] }],
+           reg := (i, s.scopes.length) :: s.reg.filter (·.1 != i) }
+/-- `if _, ok := bucket.s[rawKey]; !ok { bucket.s[rawKey] = s }`: register the caller's spelling `r` as an alias
+of `sid` unless `r` is registered already -/
+def addAlias (s : State) (r sid : Nat) : State :=
+  match lookup s r with
+  | none => { s with reg := (r, sid) :: s.reg }
+  | some _ => s
+
 /-- is some thread inside a visit of `sid` (holding that scope's metric read lock)? -/
 def visiting (s : State) (sid : Nat) : Bool :=
   s.pcs.any fun (_, p) => match p with
@@ -90,11 +114,15 @@ def visiting (s : State) (sid : Nat) : Bool :=
     | .obtDeliver _ x _ => x == sid
     | _ => false
 
+/-- thread `t`'s `Subscope(r)` returns `sid` -/
+def handOut (s : State) (t r sid : Nat) : State :=
+  { setPc s t (.obtDone r sid) with handedOut := (t, sid) :: s.handedOut }
+
 inductive Ev
   | passBegin (t : Nat)                    -- a thread starts a pass: takes the read lock
   | step (t : Nat) (choice : Nat)          -- the thread's next atomic action; `choice` = key picked by a pass iteration (observed)
   | passEndHint (t : Nat)                  -- the pass's range loop ended (observed: Go map iteration may skip entries added meanwhile)
-  | obtain (t : Nat) (i : Nat)             -- an idle thread calls Subscope for identity i
+  | obtain (t : Nat) (r : Nat)             -- an idle thread calls Subscope with the RAW key r (identity `san r`)
   | record (sid : Nat)                     -- one atomic increment on scope `sid`'s counter
   | close (sid : Nat)                      -- `Close()` of a subscope: sets the flag
 deriving Repr, DecidableEq
@@ -104,8 +132,19 @@ def clearScope (s : State) (sid : Nat) : State :=
   | some x => { setScope s sid { x with cleared := true, cell := [] } with dropped := x.cell ++ s.dropped }
   | none => s
 
+/-- the write-locked creation at the end of `Subscope(r)` by thread `t`: a new scope of identity `i` (`= san r`),
+registered under `i`, and under `r` if `r` is not registered -/
+def freshS (s : State) (t r i : Nat) : State :=
+  handOut (addAlias (createScope s i) r s.scopes.length) t r s.scopes.length
+
+/-- D4c, under the write lock: report the closed scope `sid` (= `x`) still registered under the sanitized key `i`,
+delete `i`, delete the raw key `r` if it points to `sid`, clear -/
+def d4cS (s : State) (r i sid : Nat) (x : ScopeS) : State :=
+  clearScope (deleteIfSame (deleteIfSame { setScope s sid { x with cell := [] } with delivered := x.cell ++ s.delivered }
+    i sid) r sid) sid
+
 /-- one atomic action; `none` = not enabled (blocked on a lock, or not a possible action) -/
-def step (s : State) : Ev → Option State
+def step (san : Nat → Nat) (s : State) : Ev → Option State
   | .record sid =>
     match scopeOf s sid with
     | none => none
@@ -117,7 +156,7 @@ def step (s : State) : Ev → Option State
     match scopeOf s sid with
     | none => none
     | some x => some (setScope s sid { x with closed := true })
-  | .obtain t i => if pcOf s t != .idle then none else some (setPc s t (.obtProbe i))
+  | .obtain t r => if pcOf s t != .idle then none else some (setPc s t (.obtProbe r))
   | .passBegin t => if pcOf s t != .idle then none else some (setPc (addReader s t) t (.passIter []))
   | .passEndHint t =>
     match pcOf s t with
@@ -145,52 +184,52 @@ def step (s : State) : Ev → Option State
     | .passUnlocked v k sid =>
       if !s.readers.isEmpty then none else some (setPc (deleteIfSame s k sid) t (.passRelock v k sid))
     | .passRelock v k sid => some (setPc (addReader s t) t (.passClear v k sid))
-    | .passClear v k sid => if visiting s sid then none else some (setPc (clearScope s sid) t (.passIter v))
-    | .obtProbe i =>
-      match lookup s i with
-      | none => some (setPc s t (.obtWantLock i))
+    | .passClear v _k sid => if visiting s sid then none else some (setPc (clearScope s sid) t (.passIter v))
+    | .obtProbe r =>
+      -- RLock, look the RAW key up
+      match lookup s r with
+      | none => some (setPc s t (.obtWantLock r))
       | some sid => match scopeOf s sid with
         | none => none
-        | some x => if !x.closed then some { setPc s t (.obtDone i sid) with handedOut := (t, sid) :: s.handedOut }
-                    else some (setPc (addReader s t) t (.obtSwap i sid))
-    | .obtSwap i sid =>
+        | some x => if !x.closed then some (handOut s t r sid)
+                    else some (setPc (addReader s t) t (.obtSwap r sid))
+    | .obtSwap r sid =>
       match scopeOf s sid with
       | none => none
       | some x => some (setPc (setScope s sid { x with cell := [] }) t
-          (if x.cell.isEmpty then .obtAfter i sid else .obtDeliver i sid x.cell))
-    | .obtDeliver i sid pend => some (setPc { s with delivered := pend ++ s.delivered } t (.obtAfter i sid))
-    | .obtAfter i sid => some (setPc (delReader s t) t (.obtUnlocked i sid))
-    | .obtUnlocked i sid =>
-      if !s.readers.isEmpty then none else some (setPc (deleteIfSame s i sid) t (.obtRelock i sid))
-    | .obtRelock i sid => some (setPc (addReader s t) t (.obtClear i sid))
-    | .obtClear i sid => if visiting s sid then none else some (setPc (clearScope s sid) t (.obtRelease i sid))
-    | .obtRelease i _sid => some (setPc (delReader s t) t (.obtWantLock i))
-    | .obtWantLock i =>
+          (if x.cell.isEmpty then .obtAfter r sid else .obtDeliver r sid x.cell))
+    | .obtDeliver r sid pend => some (setPc { s with delivered := pend ++ s.delivered } t (.obtAfter r sid))
+    -- removeWithRLock(bucket, rawKey, s)
+    | .obtAfter r sid => some (setPc (delReader s t) t (.obtUnlocked r sid))
+    | .obtUnlocked r sid =>
+      if !s.readers.isEmpty then none else some (setPc (deleteIfSame s r sid) t (.obtRelock r sid))
+    | .obtRelock r sid => some (setPc (addReader s t) t (.obtAfter2 r sid))
+    -- removeWithRLock(bucket, sanKey, s)
+    | .obtAfter2 r sid => some (setPc (delReader s t) t (.obtUnlocked2 r sid))
+    | .obtUnlocked2 r sid =>
+      if !s.readers.isEmpty then none else some (setPc (deleteIfSame s (san r) sid) t (.obtRelock2 r sid))
+    | .obtRelock2 r sid => some (setPc (addReader s t) t (.obtClear r sid))
+    | .obtClear r sid => if visiting s sid then none else some (setPc (clearScope s sid) t (.obtRelease r sid))
+    | .obtRelease r _sid => some (setPc (delReader s t) t (.obtWantLock r))
+    | .obtWantLock r =>
       if !s.readers.isEmpty then none else
-      -- write-locked re-lookup
-      let fresh (s : State) : State :=
-        let sid := s.scopes.length
-        let s1 := { s with scopes := s.scopes ++ [{ ident := i, closed := false, cleared := false, cell := [] }],
-                           reg := (i, sid) :: s.reg.filter (·.1 != i) }
-        { setPc s1 t (.obtDone i sid) with handedOut := (t, sid) :: s1.handedOut }
-      match lookup s i with
-      | none => some (fresh s)
+      -- write-locked lookup of the SANITIZED key
+      match lookup s (san r) with
+      | none => some (freshS s t r (san r))
       | some sid => match scopeOf s sid with
         | none => none
         | some x =>
-          if !x.closed then some { setPc s t (.obtDone i sid) with handedOut := (t, sid) :: s.handedOut }
+          if !x.closed then some (handOut (addAlias s r sid) t r sid)
           else
             -- D4c: a closed scope still registered: report it, drop it, create a fresh one (all under the write lock)
-            if visiting s sid then none else
-            let s1 := { setScope s sid { x with cell := [] } with delivered := x.cell ++ s.delivered }
-            some (fresh (clearScope (deleteIfSame s1 i sid) sid))
+            if visiting s sid then none else some (freshS (d4cS s r (san r) sid x) t r (san r))
     | .obtDone _ _ => some (setPc s t .idle)
 
-def run (s : State) : List Ev → Option State
+def run (san : Nat → Nat) (s : State) : List Ev → Option State
   | [] => some s
-  | e :: es => match step s e with
+  | e :: es => match step san s e with
     | none => none
-    | some s' => run s' es
+    | some s' => run san s' es
 
 /-- all tokens issued so far that were recorded before their scope was closed -/
 def allCells (s : State) : List Token := (s.scopes.map (·.cell)).flatten
